@@ -328,9 +328,12 @@ pub fn kvs_held_cursor(seed: u64, worker: usize, slot: &Slot) {
     }
     // phase 1: some contents, spread over components
     let mut id = 0u64;
+    let mut written: BTreeMap<Vec<u8>, u64> = BTreeMap::new();
     for _ in 0..rng.range(2, 6) {
         id += 1;
-        kvs.put(&key(rng.usize_below(nkeys)), &value(id, 40)).unwrap_or_else(|e| violation("put-error", format!("{e}")));
+        let k = key(rng.usize_below(nkeys));
+        kvs.put(&k, &value(id, 40)).unwrap_or_else(|e| violation("put-error", format!("{e}")));
+        written.insert(k, id);
     }
     // open the held cursor A and its twin B; B's drain is the reference
     let lo: Bound<Vec<u8>> = Bound::Unbounded;
@@ -344,6 +347,18 @@ pub fn kvs_held_cursor(seed: u64, worker: usize, slot: &Slot) {
         listing(&mut b).unwrap_or_else(|e| violation("twin-cursor-error", e))
     };
     let opened_at_id = id;
+    if !second_writer {
+        // "the contents the store had when the scan was opened": every write this thread had
+        // completed before it opened the cursor, and nothing else (no other writer exists)
+        let want: Vec<(Vec<u8>, u64)> = written.iter().map(|(k, v)| (k.clone(), *v)).collect();
+        let got: Vec<(Vec<u8>, u64)> = reference.iter().map(|(k, v)| (k.clone(), value_id(v))).collect();
+        if got != want {
+            violation(
+                "cursor-opened-without-the-contents-the-store-had",
+                format!("the cursor lists {got:?}, the writes completed before it was opened are {want:?}"),
+            );
+        }
+    }
     let verifier_passes = Arc::new(AtomicU64::new(0));
     let verifier = if with_verifier {
         let passes = Arc::clone(&verifier_passes);
@@ -702,6 +717,7 @@ pub fn kvs_batch_snapshot(seed: u64, worker: usize, slot: &Slot) {
             for _ in 0..n {
                 let lo: Bound<Vec<u8>> = Bound::Included(vec![b'b']);
                 let hi: Bound<Vec<u8>> = Bound::Excluded(vec![b'c']);
+                let completed_before_open = completed.load(Ordering::SeqCst);
                 let mut c = kvs.range_scan(&lo, &hi).unwrap_or_else(|e| violation("scan-open-error", format!("{e}")));
                 if started.load(Ordering::SeqCst) > completed.load(Ordering::SeqCst) {
                     in_flight_at_open.fetch_add(1, Ordering::SeqCst);
@@ -711,6 +727,14 @@ pub fn kvs_batch_snapshot(seed: u64, worker: usize, slot: &Slot) {
                 let ids: Vec<u64> = first.iter().map(|(_, v)| value_id(v)).collect();
                 if !(ids.is_empty() || (ids.len() == 4 && ids.iter().all(|i| *i == ids[0]))) {
                     violation("scan-shows-part-of-a-batch", format!("one snapshot lists the batch keys as {:?}", short(&first)));
+                }
+                // the contents the store had when the scan was opened include every batch whose
+                // write had returned before the open (batch ids are 1, 2, ...)
+                if ids.first().copied().unwrap_or(0) < completed_before_open {
+                    violation(
+                        "held-cursor-opened-without-a-batch-completed-before-the-open",
+                        format!("{completed_before_open} batches had completed, the cursor lists {:?}", short(&first)),
+                    );
                 }
                 if let Some(id) = ids.first() {
                     if *id < last_id {
